@@ -64,7 +64,12 @@ def exportStep (s : SysState) (st : Store) (e : ExportState) (toks : List String
   | ["x_csvback", w] =>
     let show? (name : String) (a : FArr FV) : Option String := do
       let r ← fvToRat? a
-      if r.dims.isEmpty then none else some s!"{name}={showArr r}"
+      -- CSV text carries no types: in a dimension without dtype whose items are of mixed type the
+      -- numbers come back as texts and are not found among the items (finding D29)
+      let mixed (d : Dim) : Bool := d.dtype.isNone &&
+        d.items.any (fun i => match i with | .int _ => true | .str _ => false) &&
+        d.items.any (fun i => match i with | .int _ => false | .str _ => true)
+      if r.dims.isEmpty || r.dims.any mixed then none else some s!"{name}={showArr r}"
     some (e, match m.sys.flows.mapM (fun f => show? (toValidFileName (untilde f.name) ++ ".csv") f.arr),
                    (stockFiles mU (w == "1")).mapM
                      (fun p => show? p.1 p.2) with
